@@ -1,4 +1,227 @@
+// C03: a CSG expression denotes one solid however it is built, shared or
+// evaluated. One job = one DAG (leaf ops + expression ops) built (E) eagerly,
+// forcing Status() after every node, and (L) lazily under a seeded forcing
+// history, twice. Oracle: same Status; same solid (independent solid-angle
+// winding number at sample points away from both surfaces + volume within
+// area*delta); the two lazy builds bit-identical; declared-equivalent node
+// pairs (rewrite rules) denote the same solid.
+#include <cmath>
+
+#include "impl.h"
 #include "jobs.h"
+#include "ops.h"
+#include "oracles.h"
+
 namespace vh {
-void register_c03() {}
+namespace {
+
+struct Tri {
+  vec3 a, b, c;
+};
+
+std::vector<Tri> tris_of(const MeshGL64& g) {
+  std::vector<Tri> t;
+  const size_t np = g.numProp;
+  for (size_t i = 0; i + 2 < g.triVerts.size(); i += 3) {
+    auto P = [&](size_t v) { return vec3(g.vertProperties[v * np], g.vertProperties[v * np + 1], g.vertProperties[v * np + 2]); };
+    t.push_back({P(g.triVerts[i]), P(g.triVerts[i + 1]), P(g.triVerts[i + 2])});
+  }
+  return t;
+}
+
+double volume_of(const std::vector<Tri>& t) {
+  double v = 0;
+  for (auto& x : t) v += la::dot(x.a, la::cross(x.b, x.c)) / 6.0;
+  return v;
+}
+double area_of(const std::vector<Tri>& t) {
+  double v = 0;
+  for (auto& x : t) v += 0.5 * la::length(la::cross(x.b - x.a, x.c - x.a));
+  return v;
+}
+
+// Van Oosterom & Strackee solid angle; winding number = sum / 4pi.
+double winding(const std::vector<Tri>& t, vec3 p) {
+  double w = 0;
+  for (auto& x : t) {
+    vec3 a = x.a - p, b = x.b - p, c = x.c - p;
+    double la_ = la::length(a), lb = la::length(b), lc = la::length(c);
+    double num = la::dot(a, la::cross(b, c));
+    double den = la_ * lb * lc + la::dot(a, b) * lc + la::dot(b, c) * la_ + la::dot(c, a) * lb;
+    w += 2 * std::atan2(num, den);
+  }
+  return w / (4 * 3.14159265358979323846);
+}
+
+double dist_point_tri(vec3 p, const Tri& t) {
+  // Ericson, Real-Time Collision Detection: closest point on triangle
+  vec3 ab = t.b - t.a, ac = t.c - t.a, ap = p - t.a;
+  double d1 = la::dot(ab, ap), d2 = la::dot(ac, ap);
+  if (d1 <= 0 && d2 <= 0) return la::length(ap);
+  vec3 bp = p - t.b;
+  double d3 = la::dot(ab, bp), d4 = la::dot(ac, bp);
+  if (d3 >= 0 && d4 <= d3) return la::length(bp);
+  double vc = d1 * d4 - d3 * d2;
+  if (vc <= 0 && d1 >= 0 && d3 <= 0) return la::length(ap - ab * (d1 / (d1 - d3)));
+  vec3 cp = p - t.c;
+  double d5 = la::dot(ab, cp), d6 = la::dot(ac, cp);
+  if (d6 >= 0 && d5 <= d6) return la::length(cp);
+  double vb = d5 * d2 - d1 * d6;
+  if (vb <= 0 && d2 >= 0 && d6 <= 0) return la::length(ap - ac * (d2 / (d2 - d6)));
+  double va = d3 * d6 - d5 * d4;
+  if (va <= 0 && (d4 - d3) >= 0 && (d5 - d6) >= 0) {
+    double w = (d4 - d3) / ((d4 - d3) + (d5 - d6));
+    return la::length(p - (t.b + (t.c - t.b) * w));
+  }
+  double denom = 1.0 / (va + vb + vc);
+  double v = vb * denom, w = vc * denom;
+  return la::length(p - (t.a + ab * v + ac * w));
+}
+
+double dist_surface(const std::vector<Tri>& t, vec3 p) {
+  double d = 1e300;
+  for (auto& x : t) d = std::min(d, dist_point_tri(p, x));
+  return d;
+}
+
+// "" if A and B denote the same solid, else clause.
+std::string solid_agrees(const Manifold& A, const Manifold& B, Rng& r, int nPoints, double* maxVolErr, long* pointsUsed) {
+  if (A.Status() != B.Status()) return "status_differs:" + std::to_string((int)A.Status()) + "vs" + std::to_string((int)B.Status());
+  if (A.Status() != Manifold::Error::NoError) return "";
+  MeshGL64 ga = A.GetMeshGL64(), gb = B.GetMeshGL64();
+  auto ta = tris_of(ga), tb = tris_of(gb);
+  const double tol = std::max(A.GetTolerance(), B.GetTolerance());
+  const double delta = std::max(1000 * tol, 1e-7);
+  double va = volume_of(ta), vb = volume_of(tb);
+  double bound = 0.5 * (area_of(ta) + area_of(tb)) * delta + 1e-12;
+  if (maxVolErr) *maxVolErr = std::max(*maxVolErr, std::abs(va - vb));
+  if (std::abs(va - vb) > bound) return "volume_differs";
+  if (ta.empty() && tb.empty()) return "";
+  Box bb = A.BoundingBox().Union(B.BoundingBox());
+  if (!bb.IsFinite()) return "";
+  vec3 lo = bb.min - vec3(0.05), hi = bb.max + vec3(0.05);
+  for (int i = 0; i < nPoints; i++) {
+    vec3 p(r.uni(lo.x, hi.x), r.uni(lo.y, hi.y), r.uni(lo.z, hi.z));
+    if (i % 3 == 0 && !ta.empty()) {  // bias: just off a face of A
+      const Tri& t = ta[r.below((uint32_t)ta.size())];
+      vec3 n = la::cross(t.b - t.a, t.c - t.a);
+      double ln = la::length(n);
+      if (ln > 0) p = (t.a + t.b + t.c) / 3.0 + n / ln * (r.below(2) ? 1.0 : -1.0) * r.uni(3 * delta, 0.05);
+    }
+    if (dist_surface(ta, p) <= delta || dist_surface(tb, p) <= delta) continue;
+    if (pointsUsed) (*pointsUsed)++;
+    long wa = std::lround(winding(ta, p)), wb = std::lround(winding(tb, p));
+    if (wa != wb) return "point_classification_differs";
+  }
+  return "";
+}
+
+struct ForceAt {
+  int afterStep, node, getter;
+};
+
+void force(const Manifold& m, int getter) {
+  switch (((getter % 4) + 4) % 4) {
+    case 0: (void)m.Status(); break;
+    case 1: (void)m.NumTri(); break;
+    case 2: (void)m.GetMeshGL64(); break;
+    default: (void)m.Volume(); break;
+  }
+}
+
+std::vector<Manifold> build(const std::vector<Op>& leaves, const std::vector<Op>& dag, const std::vector<ForceAt>& hist, bool eager,
+                            size_t* nLeaves) {
+  Env e;
+  e.capM = 1000;
+  e.capX = 1000;
+  for (auto& op : leaves) exec(e, op);
+  if (e.M.empty()) e.pushM(Manifold::Cube());
+  for (auto& m : e.M) (void)m.Status();
+  *nLeaves = e.M.size();
+  for (size_t i = 0; i < dag.size(); i++) {
+    exec(e, dag[i]);
+    if (eager)
+      for (auto& p : e.produced)
+        if (!p.isX) (void)e.M[p.idx].Status();
+    if (!eager)
+      for (auto& f : hist)
+        if (f.afterStep == (int)i && !e.M.empty()) force(e.m(f.node), f.getter);
+  }
+  return e.M;
+}
+
+std::string job_c03(const Args& a) {
+  SimSetup s = sim_setup(a);
+  auto leaves = parse_program(a.s("leaves"));
+  auto dag = parse_program(a.s("dag"));
+  std::vector<ForceAt> hist;
+  for (auto& tok : split(a.s("force", ""), ',')) {
+    auto v = split(tok, ':');
+    if (v.size() == 3) hist.push_back({atoi(v[0].c_str()), atoi(v[1].c_str()), atoi(v[2].c_str())});
+  }
+  std::vector<std::pair<int, int>> eq;
+  for (auto& tok : split(a.s("eq", ""), ',')) {
+    auto v = split(tok, ':');
+    if (v.size() == 2) eq.push_back({atoi(v[0].c_str()), atoi(v[1].c_str())});
+  }
+  JArr viol;
+  double maxVolErr = 0;
+  long pointsUsed = 0, nodes = 0, compared = 0;
+  SimOutcome out = run_simulated(s, [&]() {
+    size_t nl = 0;
+    Rng r(a.u("pseed", 7));
+    const int nPoints = (int)a.i("points", 24);
+    auto E = build(leaves, dag, hist, true, &nl);
+    Manifold::Impl::meshIDCounter_ = 1;
+    auto L1 = build(leaves, dag, hist, false, &nl);
+    Manifold::Impl::meshIDCounter_ = 1;
+    auto L2 = build(leaves, dag, hist, false, &nl);
+    nodes = (long)E.size();
+    if (E.size() != L1.size() || L1.size() != L2.size()) {
+      viol.raw(JObj().i64("node", -1).str("clause", "node_count_differs").done());
+      return;
+    }
+    // deterministic evaluation: two lazy builds with the same forcing history are bit-identical
+    for (size_t i = nl; i < L1.size(); i++) {
+      std::string f1 = fp_manifold(L1[i]), f2 = fp_manifold(L2[i]);
+      if (f1 != f2) {
+        viol.raw(JObj().i64("node", (int64_t)i).str("clause", "same_history_not_bit_identical:" + fp_diff(f1, f2)).done());
+        break;
+      }
+    }
+    // lazy vs eager, node by node (later nodes first: the root matters most)
+    const bool all = a.i("allnodes", 1);
+    for (size_t k = E.size(); k-- > nl;) {
+      if (!all && k + 1 != E.size()) break;
+      std::string c = solid_agrees(E[k], L1[k], r, nPoints, &maxVolErr, &pointsUsed);
+      compared++;
+      if (!c.empty()) {
+        viol.raw(JObj().i64("node", (int64_t)k).str("clause", "lazy_differs_from_eager:" + c).done());
+        break;
+      }
+    }
+    // declared rewrite equivalences, in both builds
+    for (auto& pr : eq) {
+      size_t i = nl + pr.first, j = nl + pr.second;
+      if (i >= E.size() || j >= E.size()) continue;
+      std::string c = solid_agrees(E[i], E[j], r, nPoints, &maxVolErr, &pointsUsed);
+      if (c.empty()) c = solid_agrees(L1[i], L1[j], r, nPoints, &maxVolErr, &pointsUsed);
+      compared += 2;
+      if (!c.empty()) {
+        viol.raw(JObj().i64("node", (int64_t)i).str("clause", "rewrite_equivalence_broken:" + c).done());
+        break;
+      }
+    }
+  });
+  if (out.exception) viol.raw(JObj().i64("node", -1).str("clause", "exception:" + out.what).done());
+  JObj j;
+  j.i64("nodes", nodes).i64("compared", compared).i64("points_used", pointsUsed).num("max_volume_err", maxVolErr);
+  j.raw("viol", viol.done()).raw("sim", outcome_json(out));
+  return j.done();
+}
+
+}  // namespace
+
+void register_c03() { registry()["c03"] = job_c03; }
+
 }  // namespace vh
